@@ -200,3 +200,83 @@ def num_lt(a, b):
             return True
         return math.floor(a) < b
     return a < b
+
+
+# ---------------------------------------------------------------------------------------------
+# Concrete fast path.  CrossHair traces every Python operation the model performs, which costs three
+# orders of magnitude even when nothing symbolic is involved.  When ALL operands of a model operation
+# are concrete (array buffers carry a conservative "may hold symbolic cells" flag), the operation is
+# executed outside the tracer: same code, same result, no symbolic reasoning to lose.
+
+try:  # optional: the model also runs where CrossHair is not installed
+    from crosshair.tracers import NoTracing as _NoTracing, is_tracing as _is_tracing
+except Exception:  # noqa: BLE001
+    _NoTracing = None
+
+    def _is_tracing():
+        return False
+
+FAST = {'depth': 0, 'hits': 0, 'misses': 0}
+_SCALARS = frozenset((int, bool, float, str, bytes, type(None), complex, type(Ellipsis)))
+
+
+class Buf(list):
+    """Cell buffer of an array (shared by its views).  `sym` is True when a cell MAY be symbolic."""
+    __slots__ = ('sym',)
+
+
+def conc(x):
+    """True only if x certainly holds no symbolic value (conservative)."""
+    c = x.__class__
+    if c in _SCALARS:
+        return True
+    if c is slice:
+        return conc(x.start) and conc(x.stop) and conc(x.step)
+    if c is tuple or c is list:
+        for y in x:
+            if not conc(y):
+                return False
+        return True
+    b = getattr(x, '_buf', None)
+    if b is not None and b.__class__ is Buf:
+        return not b.sym
+    if c is BoolScalar:
+        return conc(x.v)
+    if isinstance(x, (_np.dtype, type, _np.generic)):
+        return True
+    return False
+
+
+def fast(fn):
+    """Run fn outside the tracer when every argument is concrete."""
+    if _NoTracing is None:
+        return fn
+
+    def wrapper(*a, **kw):
+        if FAST['depth'] == 0 and _is_tracing():
+            ok = True
+            for x in a:
+                if not conc(x):
+                    ok = False
+                    break
+            if ok:
+                for x in kw.values():
+                    if not conc(x):
+                        ok = False
+                        break
+            if ok:
+                FAST['depth'] += 1
+                try:
+                    with _NoTracing():
+                        return fn(*a, **kw)
+                finally:
+                    FAST['depth'] -= 1
+        return fn(*a, **kw)
+    wrapper.__name__ = getattr(fn, '__name__', 'fast')
+    wrapper.__doc__ = getattr(fn, '__doc__', None)
+    wrapper.__wrapped__ = fn
+    return wrapper
+
+
+def in_fast_path():
+    return FAST['depth'] > 0 or not _is_tracing()
